@@ -764,7 +764,11 @@ def check_instances(ctx: Ctx, out: Outcome, items):
     rng = ctx.rng
     built = []
     for stream, model, kw, flags in items:
+        flags = dict(flags or {})
+        prior = flags.pop("__prior_calls", None)
         case = {"stream": "instance", "model": model, "kwargs": kw, "flags": flags}
+        if prior:
+            case["prior_calls"] = prior
         try:
             inst = build(model, kw, flags)
         except Exception as e:  # generator produced something the constructor refuses: not an instance
@@ -772,6 +776,27 @@ def check_instances(ctx: Ctx, out: Outcome, items):
             continue
         out.evaluations += 1
         out.count("stream:" + stream)
+        # other public serialisation calls made on the instance BEFORE the emission under test (an application dumps parts of
+        # a model, then the whole): options passed to one call must not colour any later call, on this or any other instance.
+        # Recorded in the case, so a replay repeats them.
+        if "prior_calls" not in case and rng.random() < 0.15:
+            fs = sorted(getattr(inst, "__fields_set__", ()) or ())
+            if fs:
+                pick = sorted(rng.sample(fs, min(len(fs), rng.choice([1, 1, 2]))))
+                case["prior_calls"] = [[rng.choice(["dict_exclude", "json_exclude", "serialize_exclude", "dict_include"]), pick]]
+        for how, names in case.get("prior_calls", []):
+            out.count("prior_call:" + how)
+            try:
+                if how == "dict_exclude":
+                    inst.dict(exclude=set(names))
+                elif how == "json_exclude":
+                    inst.json(exclude=set(names))
+                elif how == "serialize_exclude":
+                    inst.serialize("json", exclude=set(names))
+                elif how == "dict_include":
+                    inst.dict(include=set(names))
+            except Exception:  # noqa  -- the partial dump itself is not under test
+                out.count("prior_call_raised:" + how)
         try:
             text = inst.json(exclude_unset=True, exclude_none=True)
             doc = json.loads(text)
@@ -1702,7 +1727,7 @@ def replay(ctx: Ctx, case) -> Outcome:
     out = Outcome()
     stream = case.get("stream") if isinstance(case, dict) else None
     if stream == "instance":
-        built = check_instances(ctx, out, [("replay", case["model"], case["kwargs"], case.get("flags") or {})])
+        built = check_instances(ctx, out, [("replay", case["model"], case["kwargs"], dict(case.get("flags") or {}, **({"__prior_calls": case["prior_calls"]} if case.get("prior_calls") else {})))])
         for _s, model, c, inst, _d, _l in built:
             if model == "Molecule":
                 check_molecule_rebuild(ctx, out, inst, c)
